@@ -6,31 +6,41 @@
 #[path = "../../mccore/mccore.rs"]
 pub mod mccore;
 
+mod c06;
+mod c08;
+mod c10;
+mod c14;
+mod c15;
 mod c16;
+mod c17;
 
 use mccore::*;
 
-fn modules() -> Vec<(&'static str, &'static [&'static str])> {
-    vec![("c16", c16::FAMILIES)]
+macro_rules! modules {
+    ($($name:ident),*) => {
+        fn modules() -> Vec<(&'static str, &'static [&'static str])> {
+            vec![$((stringify!($name), $name::FAMILIES)),*]
+        }
+        fn run_family(full: &str, tier: Tier, out: &mut Output) {
+            let (m, f) = full.split_once('.').expect("family is <module>.<name>");
+            match m {
+                $(stringify!($name) => $name::run(f, tier, out),)*
+                _ => panic!("unknown module {}", m),
+            }
+        }
+        fn replay_family(full: &str, replay: &Json) -> Result<Vec<String>, (Vec<String>, Violation)> {
+            let (m, f) = full.split_once('.').expect("family is <module>.<name>");
+            let hist: Vec<u16> = replay.get("history").and_then(|h| h.as_arr()).map(|a| a.iter().filter_map(|x| x.as_i128()).map(|x| x as u16).collect()).unwrap_or_default();
+            // explore-style replays carry `config` + `history`; enumerate-style ones carry `case`
+            let cfg = replay.get("config").or(replay.get("case")).cloned().unwrap_or(Json::Null);
+            match m {
+                $(stringify!($name) => $name::replay(f, &cfg, &hist),)*
+                _ => panic!("unknown module {}", m),
+            }
+        }
+    };
 }
-
-fn run_family(full: &str, tier: Tier, out: &mut Output) {
-    let (m, f) = full.split_once('.').expect("family is <module>.<name>");
-    match m {
-        "c16" => c16::run(f, tier, out),
-        _ => panic!("unknown module {}", m),
-    }
-}
-
-fn replay_family(full: &str, replay: &Json) -> Result<Vec<String>, (Vec<String>, Violation)> {
-    let (m, f) = full.split_once('.').expect("family is <module>.<name>");
-    let hist: Vec<u16> = replay.get("history").and_then(|h| h.as_arr()).map(|a| a.iter().filter_map(|x| x.as_i128()).map(|x| x as u16).collect()).unwrap_or_default();
-    let cfg = replay.get("config").cloned().unwrap_or(Json::Null);
-    match m {
-        "c16" => c16::replay(f, &cfg, &hist),
-        _ => panic!("unknown module {}", m),
-    }
-}
+modules!(c06, c08, c10, c14, c15, c16, c17);
 
 fn main() {
     let args: Vec<String> = std::env::args().skip(1).collect();
